@@ -329,7 +329,9 @@ def job_symcoef(job):
             else:
                 cases.append((rand_keys(rng, alg), rand_keys(rng, alg)))
         for ak, bk in cases:
-            for name in ops:
+            # rounds > 1: every operator is asked again for the same pattern after all the others have been generated (with a
+            # wrapper the generated functions are resolved by name, so the names must not collide between operators)
+            for name in list(ops) * cfg.get('rounds', 1):
                 if cfg.get('graded') and False:
                     pass
                 use_poly = name not in ('inv', 'div')
